@@ -285,18 +285,22 @@ func (r *Replica) Start() error {
 // Stop gracefully stops the replication process
 func (r *Replica) Stop() error {
 	r.mu.Lock()
-	defer r.mu.Unlock()
-
 	if r.shutdown {
+		r.mu.Unlock()
 		return nil // Already shut down
 	}
 
 	// Signal shutdown
 	r.shutdown = true
 	r.cancel()
+	r.mu.Unlock()
 
-	// Wait for all goroutines to finish
+	// Wait for all goroutines to finish. The replication loop takes r.mu in
+	// several handlers, so it must not be held while waiting for it
 	r.wg.Wait()
+
+	r.mu.Lock()
+	defer r.mu.Unlock()
 
 	// Close connection and reset clients
 	if r.conn != nil {
